@@ -58,7 +58,7 @@ def run_bash(lines, workdir):
 def main(tier):
     chk = lib.Check("C17", tier)
     thorough = tier == "thorough"
-    chk.assumptions = ["bash 5.2 of the sandbox, run non-interactively in an empty directory with HOME=/nonexistent-home (so an unquoted `*` or `~` that stays unexpanded is still detected by `~`)",
+    chk.assumptions = ["bash 5.2 of the sandbox, run non-interactively in a directory that holds only the files a, aa, aaa (so that an unquoted ?, ?? or [a] is expanded) with HOME=/nonexistent-home",
                        "arguments are non-empty and contain no NUL"]
     cfg = os.path.join(lib.BUILD, "MC_ShellWords_run.cfg")
     with open(cfg, "w") as f:
